@@ -1133,3 +1133,30 @@ func (f *Func) reachingConstString(g *Graph, e ast.Expr) (string, bool) {
 	}
 	return "", false
 }
+
+// entryGuardedBy: every static call of fn in its package sits behind a test of the boolean field fld with the outcome
+// want — directly, or because the calling function is itself only entered that way (three levels up at most).
+func (c *Ctx) entryGuardedBy(fn *Func, fld *types.Var, want bool, depth int) bool {
+	if depth > 3 || fn == nil || fn.Obj == nil {
+		return false
+	}
+	n := 0
+	for _, f := range c.P.SDKFuncs() {
+		if f.Pkg != fn.Pkg {
+			continue
+		}
+		for _, holder := range append([]*Func{f}, f.AllLits()...) {
+			for _, call := range holder.CallsIn(holder.Body, fn.Obj, false) {
+				n++
+				g := holder.Graph()
+				if hasAtom(g.GuardsAt(g.VertexOf(call)), func(a Atom) bool { return holder.IsField(a.E, fld) && a.Val == want }) {
+					continue
+				}
+				if !c.entryGuardedBy(holder.Root(), fld, want, depth+1) {
+					return false
+				}
+			}
+		}
+	}
+	return n > 0
+}
